@@ -35,7 +35,13 @@ pub fn gen_world(seed: u64, idx: u64, s: &dyn SuiteOps) -> World {
     b.push(Op::NewSetupWithKey { out: setup_twin, tape: t, sk_from: setup });
     let pw = small_pw(&mut g);
     let cred_a = small_cred(&mut g);
-    let mut cred_x = small_cred(&mut g);
+    // the unregistered identifier: short, or far beyond any length prefix (identifiers are
+    // HKDF info, any length is legal — and must be answered exactly like a registered one)
+    let mut cred_x = match idx % 4 {
+        1 => g.bytes(65536),
+        3 => g.bytes(70000),
+        _ => small_cred(&mut g),
+    };
     if cred_x == cred_a {
         cred_x.push(7);
     }
@@ -164,6 +170,17 @@ pub fn judge(w: &World, r: &RunResult) -> Vec<Violation> {
         for b2 in a + 1..fakes.len() {
             if fakes[a].2 == fakes[b2].2 {
                 v.push(Violation { clause: "fake_keypair_not_fresh", op: fakes[b2].0, detail: format!("two setups created on independent tapes (ops {} and {}) hold the same fake key pair {}: it is derived from the static key, not drawn", fakes[a].0, fakes[b2].0, hex::encode(&fakes[a].2)) });
+            }
+        }
+    }
+    // a login attempt without a password file must be answered, like a real one
+    for (i, (op, e)) in w.ops.iter().zip(r.events.iter()).enumerate() {
+        if let Op::LoginRespond { record: None, ctx, .. } = op {
+            let ctx_ok = ctx.as_ref().map_or(true, |c| c.0.len() <= 65535);
+            if let (false, Err(f), true) = (e.skipped, &e.res, ctx_ok) {
+                if f.stage == crate::suite::Stage::Op {
+                    v.push(Violation { clause: "fake_structure", op: i, detail: format!("a login attempt without a password file is refused ({}) where a registered user gets a response", f.short()) });
+                }
             }
         }
     }
